@@ -408,6 +408,9 @@ Proof.
     rewrite E1. reflexivity.
 Qed.
 
+Lemma plthook_entry_noexc : forall s kd k loc arg, inexc s = false -> plthook_entry s kd k loc arg = plthook_push s kd k loc arg.
+Proof. intros s kd k loc arg H. unfold plthook_entry. rewrite H. reflexivity. Qed.
+
 (* what plthook_entry pushes, before the special handling *)
 Definition plt_triple (s : lst) (k sl r : N) (kk : skd) (fl : bool) : ent * list ent * list rec :=
   let s0 := with_m s (upd (m s) sl r) in
@@ -434,7 +437,7 @@ Proof.
   intros st s kd k sl r arg H He Hb Hv Hk.
   assert (Hi : inexc s = false) by (rewrite (i_excb _ _ H); exact He).
   pose proof (plt_pushed s k sl r (kind_of kd arg) (is_flush kd) (i_nolj _ _ H)) as P.
-  unfold plthook_entry. simpl inexc. rewrite Hi.
+  rewrite plthook_entry_noexc by exact Hi. unfold plthook_push. simpl inexc. rewrite Hi.
   change (if is_flush kd then rtd (new_ent (with_m s (upd (m s) sl r)) true k sl (kind_of kd arg)) (rs (with_m s (upd (m s) sl r)))
           else (new_ent (with_m s (upd (m s) sl r)) true k sl (kind_of kd arg), rs (with_m s (upd (m s) sl r)), []))
     with (plt_triple s k sl r (kind_of kd arg) (is_flush kd)).
@@ -521,7 +524,7 @@ Lemma step_TPlt : forall st s k f rest, Inv st s -> exc st = false -> frames st 
 Proof.
   intros st s k f rest H He HF Hh.
   assert (Hi : inexc s = false) by (rewrite (i_excb _ _ H); exact He).
-  unfold plthook_entry. simpl. rewrite Hi.
+  rewrite plthook_entry_noexc by exact Hi. unfold plthook_push. simpl. rewrite Hi.
   eapply Inv_tail with (s := s) (e := new_ent s true k (f_slot f) SNormal) (L' := rs s); eauto.
   - apply all_homogeneous_spec. exact Hh.
   - exact (i_nolj _ _ H).
@@ -657,7 +660,7 @@ Proof.
                    jpc := (arg, m s1 sl) :: jpc s1; out := out s1 |} =
                 {| rs := rs s0; ridx := ridx s0; inexc := inexc s0; m := m s0;
                    jbs := (arg, (ridx s + 1, e :: rs s)) :: jbs s0; jpc := (arg, m1 sl) :: jpc s0; out := out s0 |}).
-  { unfold s1, plthook_entry, s0. cbn [is_flush kind_of rs ridx inexc m jbs jpc out with_m]. rewrite Hi. reflexivity. }
+  { unfold s1. rewrite plthook_entry_noexc by exact Hi. unfold plthook_push, s0. cbn [is_flush kind_of rs ridx inexc m jbs jpc out with_m]. rewrite Hi. reflexivity. }
   assert (Hste : {| frames := frames st1; next_id := next_id st1; jbt := (arg, (frames st, r)) :: jbt st;
                     flight := false; exc := false; extra := 0; stale := [] |} =
                  {| frames := frames st1; next_id := next_id st1; jbt := (arg, (frames st, r)) :: jbt st1;
@@ -692,7 +695,7 @@ Proof.
   destruct P as [P1 [P2 [P3 P4]]].
   assert (Hs1 : s1 = {| rs := set_end (set_lj e1 true) arg :: anc1; ridx := ridx s + 1; inexc := false; m := m1;
                         jbs := jbs s; jpc := jpc s; out := out s ++ recs |}).
-  { unfold s1, plthook_entry. cbn [is_flush kind_of rs ridx inexc m jbs jpc out with_m]. fold e. rewrite Hi.
+  { unfold s1. rewrite plthook_entry_noexc by exact Hi. unfold plthook_push. cbn [is_flush kind_of rs ridx inexc m jbs jpc out with_m]. fold e. rewrite Hi.
     change (rs (with_m s (upd (m s) sl r))) with (rs s) in Ertd. rewrite Ertd. reflexivity. }
   (* the memory after the entry hook: every live slot is "hooked or real" *)
   assert (Hm1 : mem_rest m1 (frames st)).
@@ -745,4 +748,44 @@ Proof.
     + reflexivity.
     + intros; discriminate.
     + intros; discriminate.
+Qed.
+
+(* ================================================================ library call from a landing pad *)
+Lemma step_Plt_exc : forall st s kd k sl r arg, Inv st s -> exc st = true -> extra st = 0 ->
+  below_top (frames st) sl = true -> valid_ra r = true -> (kd = KNone \/ kd = KFlush) ->
+  (forall x, In x (stale st) -> x <= sl) ->
+  Inv (bump (mk st (fresh st sl r [true] :: frames st) true false 1 []))
+      (plthook_entry (with_m s (upd (m s) sl r)) kd k sl arg).
+Proof.
+  intros st s kd k sl r arg H He Hx Hb Hv Hk Hst.
+  pose proof (step_Poke st s sl r H Hb) as H0. set (s0 := with_m s (upd (m s) sl r)) in *.
+  assert (Hi0 : inexc s0 = true) by (unfold s0; simpl; rewrite (i_excb _ _ H); exact He).
+  pose proof (below_top_lt_all _ _ (i_sorted _ _ H) Hb) as Hlt.
+  assert (Hsh : forall y, In y (shadow (frames st)) -> sl < p_loc y) by (intros y Hin; eapply shadow_loc_gt; eauto).
+  assert (Hne : forall y, In y (shadow (frames st)) -> p_loc y <> sl) by (intros y Hin; specialize (Hsh y Hin); lia).
+  pose proof (Inv_after_rehook st s0 sl true H0 He Hx Hst Hsh) as H1.
+  set (s1 := with_exc (rehook_exception s0 sl) false) in *.
+  unfold plthook_entry. rewrite Hi0. fold s1.
+  change (bump (mk st (fresh st sl r [true] :: frames st) true false 1 []))
+    with (push (mk st (frames st) true false 0 []) sl r [true]).
+  assert (Hsl : m s1 sl = r).
+  { unfold s1; cbn [m with_exc]. rewrite (rehook_exception_mem_other st s0 sl sl H0 He Hst Hsh Hne). unfold s0; cbn [m with_m]. apply upd_same. }
+  set (e := new_ent s1 true k sl (kind_of kd arg)).
+  assert (Hpe : proj e = (sl, r, true)) by (unfold e, new_ent, proj; cbn [e_loc e_ip e_plt]; rewrite Hsl; reflexivity).
+  unfold plthook_push. fold e. change (inexc s1) with false.
+  (* the pushed entry after the optional flush *)
+  assert (Hfl : exists e1 anc1 recs, (if is_flush kd then rtd e (rs s1) else (e, rs s1, [])) = (e1, anc1, recs) /\
+            proj e1 = (sl, r, true) /\ e_lj e1 = false /\ map proj anc1 = map proj (rs s1) /\ nolj anc1).
+  { destruct (is_flush kd).
+    - pose proof (rtd_proj e (rs s1)) as R. pose proof (rtd_top_lj e (rs s1)) as Rl. pose proof (rtd_nolj e (rs s1) (i_nolj _ _ H1)) as Rn.
+      destruct (rtd e (rs s1)) as [[e1 anc1] recs]. destruct R as [R1 R2]. exists e1, anc1, recs.
+      split; [reflexivity|]. split; [rewrite R1; exact Hpe|]. split; [rewrite Rl; reflexivity|]. split; [exact R2|exact Rn].
+    - exists e, (rs s1), []. split; [reflexivity|]. split; [exact Hpe|]. split; [reflexivity|]. split; [reflexivity|exact (i_nolj _ _ H1)]. }
+  destruct Hfl as [e1 [anc1 [recs [E [P1 [P2 [P3 P4]]]]]]]. rewrite E.
+  assert (Eloc : e_loc e1 = e_loc e).
+  { apply proj_eq in P1. destruct P1 as [A _]. apply proj_eq in Hpe. destruct Hpe as [B _]. rewrite A, B. reflexivity. }
+  destruct Hk as [Hk|Hk]; subst kd;
+    (eapply Inv_push_hooked with (s := s1) (e := e1) (L' := anc1) (mm := m s1); eauto;
+     [apply mem_top_plain; [exact H1|reflexivity]
+     |intros a; cbn [m]; unfold auto_restore; destruct (rs s1) as [|prev rest]; [reflexivity|]; rewrite Eloc; reflexivity]).
 Qed.
